@@ -174,6 +174,16 @@ func faultList() []fault {
 	return []fault{
 		{"missing-include", setRa(func(s string) string { return s + "##!> include nosuchfile\n" }), genCmds},
 		{"missing-include-in-block", setRa(func(s string) string { return s + "##!> assemble\n##!> include nosuchfile\n##!<\n" }), genCmds},
+		{"missing-exclusion-file", func(ct *crsTree, ra raFile) {
+			ct.t["regex-assembly/include/exwords.ra"] = []byte("foo\nbar\nbaz\n")
+			ct.t["regex-assembly/exclude/exskip.ra"] = []byte("bar\n")
+			ct.t[ra.path] = append(ct.t[ra.path], []byte("##!> include-except exwords exskip nosuchfile\n")...)
+		}, genCmds},
+		{"missing-exclusion-file-first", func(ct *crsTree, ra raFile) {
+			ct.t["regex-assembly/include/exwords.ra"] = []byte("foo\nbar\nbaz\n")
+			ct.t[ra.path] = append(ct.t[ra.path], []byte("##!> assemble\n##!> include-except exwords nosuchfile\n##!<\n")...)
+		}, genCmds},
+		{"missing-include-except-file", setRa(func(s string) string { return s + "##!> include-except nosuchfile alsonot\n" }), genCmds},
 		{"malformed-entry", setRa(func(s string) string { return "a(b\n" + s }), genCmds},
 		{"malformed-entry-in-include", func(ct *crsTree, ra raFile) {
 			ct.t["regex-assembly/include/broken.ra"] = []byte("x(\n")
@@ -679,6 +689,30 @@ func oracleC17(p *Pair, env *Env, a [][]byte) *Failure {
 			// everything after the long line of the exclusion file must still be excluded
 			args = append(append([][]byte{}, empty...), []byte("##!> include-except words excl\n"), []byte("i"), []byte("words.ra"), []byte("zzq1\nzzq2\ngone1\ngone2\n"), []byte("i"), []byte("excl.ra"), join(place([]string{"gone1", "gone2"}, long)))
 		}
+		if n > 140000 {
+			// the engine is quadratic on very long literals: above that size the line scanners are exercised through
+			// the parser alone (every scanner site of generate except the assembler's line loop lives there)
+			pr := p.Impl(Op{"parse.run", args[6:]}, env.timeout)
+			if pr.Status != "ok" {
+				return nil
+			}
+			buf := "\n" + string(pr.Out[0])
+			for _, w := range []string{"zzq1", "zzq2"} {
+				if !strings.Contains(buf, "\n"+w+"\n") {
+					return fail("entry "+w+" is missing from the parsed text", fmt.Sprintf("parsed text of %d bytes", len(pr.Out[0])))
+				}
+			}
+			if site == "generate-exclude-file" {
+				for _, w := range []string{"gone1", "gone2"} {
+					if strings.Contains(buf, "\n"+w+"\n") {
+						return fail("excluded entry "+w+" survived", "")
+					}
+				}
+			} else if !strings.Contains(buf, "\n"+long+"\n") {
+				return fail("the long entry itself is missing from the parsed text", "")
+			}
+			return nil
+		}
 		g := p.Impl(Op{"gen.run", args}, env.timeout)
 		if g.Status != "ok" {
 			return nil // loud failure is acceptable
@@ -739,16 +773,16 @@ func oracleC17(p *Pair, env *Env, a [][]byte) *Failure {
 }
 
 func genC17(r *rand.Rand, tier string, env *Env) []Case {
-	lengths := []int{65535, 65536, 65537, 70000}
+	lengths := []int{65535, 65536, 65537, 70000, 262143, 262144, 1048577}
 	if tier == "thorough" {
-		lengths = []int{1, 4095, 4096, 65534, 65535, 65536, 65537, 65538, 100000, 131072, 131073, 300000, 1048576}
+		lengths = []int{1, 4095, 4096, 65534, 65535, 65536, 65537, 65538, 100000, 131072, 131073, 262143, 262144, 262145, 300000, 524288, 1048576, 1048577, 4194305}
 	}
 	var cases []Case
 	sites := []string{"generate", "generate-include", "generate-replace-suffixes", "generate-include-except", "generate-exclude-file", "format", "renumber", "copyright"}
 	for _, site := range sites {
 		for _, n := range lengths {
-			if strings.HasPrefix(site, "generate") && n > 140000 {
-				continue // the engine itself is quadratic on very long literals; the scanner limit is far below
+			if site == "generate" && n > 140000 {
+				continue // the assembler's own line loop needs the engine, which is quadratic on very long literals
 			}
 			for _, pos := range []string{"first", "middle", "last"} {
 				nl := pick(r, []string{"1", "0"})
